@@ -6,6 +6,8 @@ mod state;
 
 #[cfg(test)]
 mod tests;
+#[cfg(minimq_verif)]
+pub mod verif;
 
 use crate::de::PacketReader;
 use crate::ser::MAX_FIXED_HEADER_SIZE;
